@@ -855,7 +855,12 @@ impl<VM: VMBinding> CommonPlan<VM> {
             } else if #[cfg(feature = "marksweep_as_nonmoving")] {
                 self.nonmoving.prepare(_full_heap);
             } else {
-                self.nonmoving.release(_full_heap, UnlogBitsOperation::NoOp);
+                // Objects in the non-moving space are not traced in nursery GCs (they are treated
+                // as mature), so their lines are not marked.  Sweeping the space in a nursery GC
+                // would reclaim reachable objects allocated since the last full-heap GC.
+                if _full_heap {
+                    self.nonmoving.release(_full_heap, UnlogBitsOperation::NoOp);
+                }
             }
         }
     }
